@@ -56,10 +56,19 @@ def gen_cases(tier, seed):
         third = ["P.Ch.Gc", "g0"] if "Gc" in k else (["P.Ch", "cc"] if j % 2 else ["B", "bc"])
         yield {"id": "mx%d" % j, "kind": "matrix", "edit": k, "path": p, "seed": env.derive_seed(seed, ID, "mx", k),
                "varied": [["P", "u" + p], ["P", "uu" + p], third], "toggle": j % 2 == 0}
+    # the flag given in a redefinition through the decorator: every (old flag, new flag, formula changed?, evaluated?)
+    j = 0
+    for old in (None, True, False):
+        for new in (None, True, False):
+            for changed in (0, 1):
+                for evaluated in (False, True):
+                    yield {"id": "dc%d" % j, "kind": "defcells", "old": old, "new": new, "changed": changed,
+                           "evaluated": evaluated}
+                    j += 1
 
 
 def expand(case):
-    if "ops" in case:
+    if "ops" in case or case.get("kind") == "defcells":
         return case
     rnd = random.Random(case["seed"])
     c = dict(case)
@@ -301,7 +310,56 @@ def run_assignment(case, mask):
     return points, vio, cnt
 
 
+def run_defcells(case):
+    """a cells redefined through @defcells(is_cached=flag): the new formula and the new flag apply, the caller follows"""
+    import modelx as mx
+    from .. import c09_defs as D
+    reset_session()
+    vio = []
+    cnt = {"defcells_checks": 0}
+
+    def V(sig, **d):
+        vio.append({"kind": "defcells", "signature": sig, "detail": dict(d, case={k: case[k] for k in
+                                                                                ("old", "new", "changed", "evaluated")})})
+    m = mx.new_model("M")
+    S = m.new_space("S")
+    log = []
+    S.log = log
+    D.define(mx, S, 0, case["old"])
+    D.define_caller(mx, S)
+    if case["evaluated"]:
+        S.g(1), S.f(2)
+    variant = case["changed"]
+    D.define(mx, S, variant, case["new"])
+    flag_old = True if case["old"] is None else case["old"]
+    flag = flag_old if case["new"] is None else case["new"]
+    k = D.MULT[variant]
+    cnt["defcells_checks"] += 1
+    if S.f.is_cached is not flag:
+        V("redefinition through defcells(is_cached=...) did not set the cached flag", got=S.f.is_cached, expected=flag)
+    got = (val(S.f, 1), val(S.g, 1), val(S.f, 2))
+    if got != (k, k + 1, 2 * k):
+        V("redefinition through defcells(is_cached=...) did not apply the formula", got=list(got),
+          expected=[k, k + 1, 2 * k])
+    if not vio:
+        n0 = len(log)
+        S.f(1)
+        n1 = len(log)
+        if flag and n1 != n0:
+            V("a cached cells ran its formula again for a held element")
+        if not flag and (n1 != n0 + 1 or len(S.f) != 0):
+            V("an uncached cells did not run its formula on every call", ran=n1 - n0, held=len(S.f))
+    s = sanity(m)
+    if s and not vio:
+        V("library self-check failed", probs=s[:3])
+    return {"violations": vio, "counters": cnt, "nontrivial": True,
+            "shape": "dc-%s-%s-%s-%s" % (case["old"], case["new"], case["changed"], case["evaluated"]),
+            "matrix": {"defcells old->new flag": {"%s->%s" % (case["old"], case["new"]): 1}}}
+
+
 def run_case(case):
+    if case.get("kind") == "defcells":
+        return run_defcells(case)
     case = expand(case)
     k = len(case["varied"])
     vio = []
@@ -369,5 +427,7 @@ def finalize(cov, results):
 
 
 def shrink(case, violations, deadline):
+    if case.get("kind") == "defcells":
+        return None
     from ..shrink import shrink_ops
     return shrink_ops(expand(case), run_case, violations, deadline)
